@@ -38,7 +38,8 @@ def cases(draw, max_leaves):
     spec = draw(shapes.shapes(min_leaves=minl, max_leaves=max_leaves, max_arity=5, unifurcations=True))
     n = shapes.n_leaves(spec)
     hist = draw(shapes.namespace_history(n))
-    opts = {"su": draw(st.booleans()), "cb": draw(st.booleans()), "mut": draw(st.booleans())}
+    opts = {"su": draw(st.booleans()), "cb": draw(st.booleans()), "mut": draw(st.booleans()),
+            "ss": draw(st.integers(0, 3)) == 0}
     second = {"kind": draw(st.sampled_from(["redraw", "redraw", "nni", "contract", "independent"])),
               "perm": draw(st.lists(st.integers(0, 5), min_size=1, max_size=8)),
               "reseed": draw(st.integers(0, 50)),
@@ -180,8 +181,11 @@ def ref_same_topology(a, b, rooted):
 
 def encode_and_check(ctx, tree, rt_before, bits, rooted, opts, tag):
     """Clause 1 on one tree.  Returns (set of split masks, post-encode RefTree)."""
+    ss = bool(opts.get("ss"))
     enc = tree.encode_bipartitions(suppress_unifurcations=opts["su"], collapse_unrooted_basal_bifurcation=opts["cb"],
-                                   is_bipartitions_mutable=opts["mut"])
+                                   is_bipartitions_mutable=opts["mut"], suppress_storage=ss)
+    if ss:
+        ctx.cls("encode:suppress_storage")
     post, problems = snapshot(tree)
     ctx.check(not problems, "encode_keeps_tree_well_formed", "C01.wellformed", lambda: "%s: %r" % (tag, problems))
     full_expected = mask_of(rt_before.leafset(), bits)
@@ -214,6 +218,10 @@ def encode_and_check(ctx, tree, rt_before, bits, rooted, opts, tag):
                   lambda: "%s rooted=%r node over %s: split %s want %s (tree mask %s)" % (
                       tag, rooted, sorted(cl[i]), bin(b.split_bitmask), bin(want_split), bin(full_expected)))
         masks.append(b.split_bitmask)
+    if ss:
+        # documented: the list is not stored; the edges still carry fully compiled bipartitions
+        ctx.check(enc is None and tree.bipartition_encoding is None, "suppress_storage_stores_no_list", "C01.suppress_storage", tag)
+        return set(masks), post, list(edge_bips)
     ctx.check(enc is tree.bipartition_encoding and len(enc) == len(edge_bips)
               and sorted(id(b) for b in enc) == sorted(id(b) for b in edge_bips),
               "encoding_list_is_edges_bipartitions", "C01.encoding_list",
@@ -302,6 +310,33 @@ def check_case(ctx, case):
             ctx.check(got == want, "tree_is_compatible_with_bipartition", "C01.tree_compatible",
                       lambda: "rooted=%r tree=%s bip=%s got %r want %r" % (rooted_flag, rt1.canon(), sorted(cl2[j]), got, want))
             ctx.cls("tree_compat:%s" % want)
+
+        # the same question on a tree that was encoded BEFORE it was restructured (raw subtree move, which does not
+        # refresh encodings): with default arguments the answer must describe the current structure
+        t1c = shapes.build_tree(spec, ns, taxa, is_rooted=rooted_flag)
+        t1c.encode_bipartitions()
+        cur, _p = snapshot(t1c)
+        nonroot = [i for i in cur.nodes() if i != cur.root]
+        if nonroot:
+            x = nonroot[case["A"] % len(nonroot)]
+            sub = set(cur.preorder(x))
+            targets = [i for i in cur.internals() if i not in sub and i != cur.parent[x]]
+            if targets:
+                y = targets[case["B"] % len(targets)]
+                cur.obj[cur.parent[x]].remove_child(cur.obj[x])
+                cur.obj[y].add_child(cur.obj[x])
+                now, problems_now = snapshot(t1c)
+                if not problems_now and all(now.taxon[i] is not None for i in now.leaves()) and (rooted or now.n_leaves() >= 3):
+                    nowcl = now.clusters().values()
+                    for j in post2.nodes()[:6]:
+                        b2 = post2.obj[j].edge.bipartition
+                        want = all(clusters_compatible(c, cl2[j], full, rooted) for c in nowcl)
+                        got = t1c.is_compatible_with_bipartition(b2)
+                        ctx.check(got == want, "tree_is_compatible_with_bipartition_after_edit", "C01.tree_compatible_stale",
+                                  lambda: "rooted=%r tree now=%s (was %s) bip=%s got %r want %r" % (rooted_flag, now.canon(), rt1.canon(), sorted(cl2[j]), got, want))
+                        now2, _ = snapshot(t1c)
+                        nowcl = now2.clusters().values()
+                    ctx.cls("tree_compat:after_raw_edit")
 
     # ---- clause 3: rebuild from the encoding in any order --------------------
     import random
